@@ -183,6 +183,38 @@ def b_directed():
                 s.send(w, type="open", mailbox="mR" if via == "direct" else claimed(x))
                 s.send(w, type="list")
                 out.append((p.h, s.h, Config(usage=bool(usage))))
+    # what an allocate made the running server remember about names in use is not in the database: the nine
+    # one-digit names are held, an early allocate has happened, then "7" or another spelling of it ("07", " 7")
+    # is retired in some way; the allocates after the cut must agree
+    for pad in ("0%d", " %d", "+%d"):
+        for how in ("pad-release", "pad-close", "release", "close", "none"):
+            for usage in (0, 1):
+                p = HB()
+                E = p.conn("app", "s7")
+                p.send(E, type="allocate")
+                hold = {}
+                for i in range(1, 10):
+                    c = p.conn("app", "s1")
+                    p.send(c, type="claim", nameplate="%d" % i)
+                    hold[i] = c
+                P = p.conn("app", "s6")
+                p.send(P, type="claim", nameplate=pad % 7)
+                if how == "pad-release":
+                    p.send(P, type="release")
+                elif how == "pad-close":
+                    p.send(P, type="close", mailbox=claimed(P))
+                elif how == "release":
+                    p.send(hold[7], type="release")
+                elif how == "close":
+                    p.send(hold[7], type="close", mailbox=claimed(hold[7]))
+                p.adv(5)
+                s = HB()
+                s.n = 100
+                for k in range(3):
+                    x = s.conn("app", "s%d" % (2 + k))
+                    s.send(x, type="allocate")
+                    s.send(x, type="list")
+                out.append((p.h, s.h, Config(usage=bool(usage))))
     return out
 
 
